@@ -2068,15 +2068,24 @@ class PPEnumFieldType(FieldType):
         if by_value_cache is None:
             self._verify_fmt_modifier(fmt_modifier)
 
-        if value not in by_value_cache:
+        val_key = self._val_cache_key(value)
+        if val_key not in by_value_cache:
             self._make_text_cache_for_val(
                 value, field_palette, by_fmt_cache)
 
-        return by_value_cache[value]
+        return by_value_cache[val_key]
+
+    @staticmethod
+    def _val_cache_key(value):
+        # key of the value in the by-value caches. Equal values may be printed
+        # differently (1, True, 1.0; 0.0, -0.0), so the value alone can't be
+        # the key: such values must not share the cached cell
+        return type(value), str(value), value
 
     def _make_text_cache_for_val(self, value, cp, by_fmt_cache) -> None:
         # populate self._cache for value
         # ('by_fmt_cache' is part of self._cache)
+        val_key = self._val_cache_key(value)
         try:
             name, syntax_name = self.enum_values[value]
             val_len = self.max_val_len
@@ -2086,9 +2095,9 @@ class PPEnumFieldType(FieldType):
                 # but a single None
                 text_and_alignment = super().make_desired_cell_ch_chunks(
                     value, None, cp)
-                by_fmt_cache['val'][value] = text_and_alignment
-                by_fmt_cache['name'][value] = text_and_alignment
-                by_fmt_cache['full'][value] = text_and_alignment
+                by_fmt_cache['val'][val_key] = text_and_alignment
+                by_fmt_cache['name'][val_key] = text_and_alignment
+                by_fmt_cache['full'][val_key] = text_and_alignment
                 return
             name, syntax_name = self.enum_missing_value
             val_len = max(self.max_val_len, len(str(value)))
@@ -2097,10 +2106,10 @@ class PPEnumFieldType(FieldType):
 
         # 'val' format
         val_text_items, align = super().make_desired_cell_ch_chunks(value, None, cp)
-        by_fmt_cache['val'][value] = (val_text_items, align)
+        by_fmt_cache['val'][val_key] = (val_text_items, align)
 
         # 'name' format
-        by_fmt_cache['name'][value] = ([color_fmt(name)], align)
+        by_fmt_cache['name'][val_key] = ([color_fmt(name)], align)
 
         # 'full' format
         full_text_items = []
@@ -2111,7 +2120,7 @@ class PPEnumFieldType(FieldType):
         full_text_items.extend(val_text_items)
         full_text_items.append(cp.text(" "))
         full_text_items.append(color_fmt(name))
-        by_fmt_cache['full'][value] = (full_text_items, ALIGN_LEFT)
+        by_fmt_cache['full'][val_key] = (full_text_items, ALIGN_LEFT)
 
     def get_cell_text_len(self, value, fmt_modifier) -> int:
         """Calculate length of text representation of the value."""
@@ -2120,13 +2129,15 @@ class PPEnumFieldType(FieldType):
         if by_val_lenghs is None:
             self._verify_fmt_modifier(fmt_modifier)
 
-        if value not in by_val_lenghs:
+        val_key = self._val_cache_key(value)
+        if val_key not in by_val_lenghs:
             self._make_len_cache_for_val(value)
 
-        return by_val_lenghs[value]
+        return by_val_lenghs[val_key]
 
     def _make_len_cache_for_val(self, value):
         # populate self._cache_lengths for value
+        val_key = self._val_cache_key(value)
         try:
             name, _ = self.enum_values[value]
             val_len = self.max_val_len
@@ -2135,22 +2146,22 @@ class PPEnumFieldType(FieldType):
                 # special case: cell will not contain enum's value and name,
                 # but a single None
                 text_len = len(str(None))
-                self._cache_lengths['val'][value] = text_len
-                self._cache_lengths['name'][value] = text_len
-                self._cache_lengths['full'][value] = text_len
+                self._cache_lengths['val'][val_key] = text_len
+                self._cache_lengths['name'][val_key] = text_len
+                self._cache_lengths['full'][val_key] = text_len
                 return
             name, _ = self.enum_missing_value
             val_len = max(self.max_val_len, len(str(value)))
 
         # 'val' format
-        self._cache_lengths['val'][value] = val_len
+        self._cache_lengths['val'][val_key] = val_len
 
         # 'name' format
         name_len = len(str(name))
-        self._cache_lengths['name'][value] = name_len
+        self._cache_lengths['name'][val_key] = name_len
 
         # 'full' format
-        self._cache_lengths['full'][value] = val_len + 1 + name_len
+        self._cache_lengths['full'][val_key] = val_len + 1 + name_len
 
     def is_fmt_modifier_ok(self, fmt_modifier) -> (bool, str):
         """Chek if fmt_modifier is correct."""
